@@ -503,6 +503,19 @@ class Handles:
                                                 c2 = c2[2][0] if c2[0] == "call" else c2[3][0][1]
                                             if not (c2[0] == "field" and c2[2] == fld):
                                                 exact = False
+                    # ... looked up under the very lock acquisition the insert is made under: a value read under an earlier (read) lock
+                    # is stale by the time the write lock is taken — a set_*_time that completed in between is undone by the flush
+                    def _acq(t_):
+                        return {x[3] for x in walk(t_) if x[0] == "call" and isinstance(x[1], str) and
+                                short(x[1]).split("<")[0] in ("RwLock::write", "RwLock::read", "Mutex::lock", "RwLock::try_write", "RwLock::try_read") and len(x) > 3}
+                    ins_acq = _acq(a[0])
+                    if v is not None and prev:
+                        get_acq = set()
+                        for x in walk(v):
+                            if x[0] == "call" and x[1] in ("HashMap::get", "HashMap::get_mut") and len(x[2]) == 2:
+                                get_acq |= _acq(x[2][0])
+                        if ins_acq and get_acq and not (get_acq <= ins_acq):
+                            prev = False
                     # the `match previous { Some(file) => file.<fld>, None => fallback }` spelling: the field of the looked-up entry
                     # itself is one alternative of the value
                     if v is not None and prev:
